@@ -166,6 +166,23 @@ theorem no_waiter_left (id0 : Nat) (tr : List Event) (s : State) (hr : run (init
     have := (hI.entry e.1 e.2 (by rw [ht]; simp)).1
     rw [hall e.2] at this; cases this
 
+/-! ### the effective timeout
+
+  `time.After(timeout)` is armed with the clamped value, so a call never times out "at once": the
+  effective timeout is positive, at most ten seconds, and the requested one whenever that is in range. -/
+
+theorem effTimeout_pos (t : Int) : 0 < effTimeout t := by
+  unfold effTimeout; split <;> omega
+
+theorem effTimeout_le (t : Int) : effTimeout t ≤ 10000000000 := by
+  unfold effTimeout; split <;> omega
+
+theorem effTimeout_in_range (t : Int) (h0 : 0 < t) (h1 : t ≤ 10000000000) : effTimeout t = t := by
+  unfold effTimeout; split <;> omega
+
+theorem effTimeout_default (t : Int) (h : t ≤ 0 ∨ 10000000000 < t) : effTimeout t = 2000000000 := by
+  unfold effTimeout; split <;> omega
+
 /-! ### non-vacuity -/
 
 /-- a ping with id 5 completed by its own reply returns nil and leaves the table empty -/
